@@ -493,6 +493,8 @@ def _callers(ck, repo):
             oids.append(idn.of(oe, mi, cfg, hn, tq))
             tids.append(idn.of(te, mi, cfg, hn, tq))
         found = False
+        if troles and not tids:
+            raise AnalysisError(f"{tq}: no target-update helper call is visible in this loop, so its target networks cannot be identified (unrecognised form)")
         for node in cfg.nodes:
             if node.ast is None or node.kind != "stmt":
                 continue
